@@ -72,6 +72,9 @@ type checker struct {
 	out    map[string]int64
 	cur    []byte
 	curSet int
+	// fresh: use a newly made Decoder for every stream route (a reused Decoder keeps the buffer capacity it grew to on
+	// earlier inputs, which moves the read boundaries away from the initial 64 bytes)
+	fresh bool
 }
 
 func newChecker() *checker {
@@ -129,6 +132,9 @@ func (c *checker) one(b []byte, s *optSet) (msg string) {
 	}
 	// 3. ReadToken loop over the stream
 	c.rd.Reset(b)
+	if c.fresh {
+		c.dec = jsontext.NewDecoder(&c.rd, s.opts...)
+	}
 	c.dec.Reset(&c.rd, s.opts...)
 	tops := 0
 	for {
@@ -152,6 +158,9 @@ func (c *checker) one(b []byte, s *optSet) (msg string) {
 	}
 	// 4. ReadValue loop over the stream
 	c.rd.Reset(b)
+	if c.fresh {
+		c.dec = jsontext.NewDecoder(&c.rd, s.opts...)
+	}
 	c.dec.Reset(&c.rd, s.opts...)
 	tops = 0
 	for {
@@ -260,10 +269,16 @@ func report(r *evid.Run, b []byte, u, d bool, msg string) {
 }
 
 func replayCase(cs Case) string {
-	c := newChecker()
-	for i := range c.sets {
-		if c.sets[i].utf8 == cs.AllowUTF8 && c.sets[i].dup == cs.AllowDup {
-			return c.one(cs.Input, &c.sets[i])
+	// a case found on a reused Decoder is replayed that way first, then on freshly made Decoders
+	for _, fresh := range []bool{false, true} {
+		c := newChecker()
+		c.fresh = fresh
+		for i := range c.sets {
+			if c.sets[i].utf8 == cs.AllowUTF8 && c.sets[i].dup == cs.AllowDup {
+				if m := c.one(cs.Input, &c.sets[i]); m != "" {
+					return m
+				}
+			}
 		}
 	}
 	return ""
